@@ -102,6 +102,11 @@ func runBackend(ctx context.Context, b backend, file string, timeoutS int) *Solv
 // portfolio for the remaining budget. cross=true runs all back ends to the
 // budget and reports sat/unsat disagreements.
 func solve(text string, budgetS int, cross bool) *SolveResult {
+	return solveCtx(context.Background(), text, budgetS, cross)
+}
+
+// solveCtx: like solve, cancellable; a cancelled query is not memoised.
+func solveCtx(pctx context.Context, text string, budgetS int, cross bool) *SolveResult {
 	key := hashText(text)
 	cacheMu.Lock()
 	if r, ok := solveMemo[key]; ok {
@@ -112,18 +117,33 @@ func solve(text string, budgetS int, cross bool) *SolveResult {
 		cacheMu.Unlock()
 		<-w
 		cacheMu.Lock()
-		r := solveMemo[key]
+		r, ok := solveMemo[key]
 		cacheMu.Unlock()
-		return r
+		if ok {
+			return r
+		}
+		return solveCtx(pctx, text, budgetS, cross)
 	}
 	done := make(chan struct{})
 	inflight[key] = done
 	cacheMu.Unlock()
-	defer close(done)
+	defer func() {
+		cacheMu.Lock()
+		delete(inflight, key)
+		cacheMu.Unlock()
+		close(done)
+	}()
 	file := filepath.Join(workDir, key+".smt2")
 	os.WriteFile(file, []byte(text), 0o644)
-	solveSem <- struct{}{}
+	select {
+	case solveSem <- struct{}{}:
+	case <-pctx.Done():
+		return &SolveResult{Status: "cancelled", Backend: "none"}
+	}
 	defer func() { <-solveSem }()
+	if pctx.Err() != nil {
+		return &SolveResult{Status: "cancelled", Backend: "none"}
+	}
 
 	var res *SolveResult
 	total := 0.0
@@ -132,14 +152,14 @@ func solve(text string, budgetS int, cross bool) *SolveResult {
 		if budgetS < first {
 			first = budgetS
 		}
-		r := runBackend(context.Background(), backends[0], file, first)
+		r := runBackend(pctx, backends[0], file, first)
 		total += r.TimeS
 		if r.Status == "unsat" || r.Status == "sat" {
 			res = r
 		}
 	}
 	if res == nil {
-		ctx, cancel := context.WithCancel(context.Background())
+		ctx, cancel := context.WithCancel(pctx)
 		ch := make(chan *SolveResult, len(backends))
 		for _, b := range backends {
 			go func(b backend) { ch <- runBackend(ctx, b, file, budgetS) }(b)
@@ -189,6 +209,10 @@ func solve(text string, budgetS int, cross bool) *SolveResult {
 			}
 			res = &SolveResult{Status: st, Backend: "portfolio", TimeS: total, Raw: strings.Join(raws, "\n")}
 		}
+	}
+	if pctx.Err() != nil && res.Status != "unsat" && res.Status != "sat" {
+		res.Status = "cancelled"
+		return res
 	}
 	cacheMu.Lock()
 	solveMemo[key] = res
